@@ -18,6 +18,21 @@ CLAIMED = {
               "exhaustive one-axis table) is recomputed by the TLA+ trace specification from the geometric definition "
               "(values, dims, order, default shift, rule/fill resolution) and must match exactly."),
         ref="4 C01, 3.1", technique="TLA+ spec (Stencil/GridModel) model-checked with TLC + TLC trace validation of real calls"),
+    "C02": dict(
+        text=("TLC exhausts a two-step state machine (Construct, Pad) over every spelling of periodic / boundary / "
+              "fill_value at constructor and call level for a 2-axis grid (2.4 million states) and checks the code-shaped "
+              "dictionary completion against the declarative three-level lookup and the interchangeability of spellings; "
+              "every constructor spelling (thorough: all 5104, quick: 1500) and thousands of real pad calls with "
+              "asymmetric widths are validated by the TLA+ trace specification (settings per axis; shape grows by exactly "
+              "(lo,hi); interior and single-axis halo cells exact; two-axis corner cells up to the order of axes)."),
+        ref="4 C02, 3.2", technique="TLA+ state machine (Boundary) model-checked with TLC + TLC trace validation of real constructor and pad calls"),
+    "C09": dict(
+        text=("TLC proves the running-sum-then-trim/pad table equals the geometric running sum for all 8 shifts, 3 rules "
+              "and all small arrays, that diff(outer->center) inverts cumsum(center->outer, fill 0), that two-axis cumsum "
+              "commutes unless a non-zero fill is in force (and refutes the unguarded claim), and that the last value on "
+              "outer/right targets is the total; real cumsum calls, diff(cumsum) round trips, two-order cumsums and "
+              "cumint/integrate pairs with non-uniform metrics are validated by the TLA+ trace specification."),
+        ref="4 C09, 3.1", technique="TLA+ spec (Stencil) model-checked with TLC + TLC trace validation of real calls"),
 }
 
 PENDING_REASON = "check not built yet in this session (planned; see DESIGN.md section 9 build order)"
